@@ -242,8 +242,8 @@ func (fs *filesystem) Mount(ctx context.Context, mountpoint string, labels map[s
 
 	// Resolve the target layer
 	var (
-		resultChan = make(chan layer.Layer)
-		errChan    = make(chan error)
+		resultChan = make(chan layer.Layer, 1)
+		errChan    = make(chan error, 1)
 	)
 	go func() {
 		rErr := fmt.Errorf("failed to resolve target")
@@ -287,6 +287,14 @@ func (fs *filesystem) Mount(ctx context.Context, mountpoint string, labels map[s
 		return fmt.Errorf("failed to resolve layer: %w", err)
 	case <-time.After(30 * time.Second):
 		log.G(ctx).Debug("failed to resolve layer (timeout)")
+		go func() {
+			// Nobody uses the layer if it's resolved after the timeout. Release it.
+			select {
+			case l := <-resultChan:
+				l.Done()
+			case <-errChan:
+			}
+		}()
 		return fmt.Errorf("failed to resolve layer (timeout)")
 	}
 	defer func() {
